@@ -301,7 +301,11 @@ def handle (op : String) (req : Json) : Except String Json := do
   | "echo" => pure (ofJ (← getJ req "v"))
   | "cidict" => cidict req
   | "pp" => pure (resS (Printer.pprint (← getOpts req) Gen.props (← getJ req "d")))
-  | "reload" => pure (ofJ (Printer.normDoc Gen.props (← getJ req "d")))
+  | "reload" => do
+    let d ← getJ req "d"
+    let sep := match getBool req "sep" with | .ok b => b | .error _ => false
+    let d' : J := if sep then (match d with | .list xs => .list (xs.map Printer.sepRoot) | x => Printer.sepRoot x) else d
+    pure (ofJ (Printer.normDoc Gen.props d'))
   | "format_value" =>
     match cellOf Gen.props (← getStr req "type") (← getStr req "attr") with
     | none => pure (Json.mkObj [("err", .str "IOError")])
